@@ -327,6 +327,55 @@ func runC13(c *core.Ctx) {
 			}
 		}
 	}
+	// elements of one recipe whose names agree up to a path separator in one and a byte that sorts below it in the
+	// other (round 13, L13: names compared segment by segment instead of byte by byte - "vitamins/b12" against
+	// "vitamins minerals/iron"): the rows of a recipe stand in the byte order of the element names, also when the
+	// elements arrive through a sub-recipe
+	{
+		srv := pool.Servers[0]
+		x := func(n string, k int) gen.Ent { return gen.Ent{Name: n, Val: gen.Half(2 * k)} }
+		for bi, names := range [][]string{
+			{"vitamins/b12", "vitamins minerals/iron", "vitamins-c/x", "vitamins.d/y", "vitamins+e/z", "vitamins!/q", "vitamins(k)/r", "vitamins/a"},
+			{"a/b/c", "a/b-x/c", "a/b x/c", "a/b/d", "a/b.x/a", "a-b/c", "a b/c", "a/b"},
+			{"fat/sat", "fat sat/x", "fat", "fat/", "fat!", "fat0/x", "fat/0"},
+		} {
+			var ents, inner []gen.Ent
+			for k, n := range names {
+				ents = append(ents, x(n, k+1))
+				if k%2 == 0 {
+					inner = append(inner, x(n, k+2))
+				}
+			}
+			book := gen.Book{{Name: "plain", Ents: ents}, {Name: "inner", Ents: inner}, {Name: "outer", Ents: append([]gen.Ent{x("inner", 1)}, ents[1:]...)}}
+			res := model.Resolve(book)
+			var want []string
+			for _, name := range sortedKeys(res) {
+				for _, e := range res[name] {
+					want = append(want, fmt.Sprintf("%s,%s,%s", name, e.Name, e.V.FloatString(2)))
+				}
+			}
+			files := map[string]string{"food.yaml": gen.RenderBook(book, nil)}
+			srv.Write(files)
+			args := []string{"-d", "food.yaml", "csv", "database-resolved"}
+			outcomes := map[string]int{}
+			for _, v := range srv.App(args, nil, 20) {
+				outcomes[fmt.Sprintf("exit=%d\n%s", v.Exit, v.Out)] += v.Count
+			}
+			v := run.Exec(c.HR, args, run.ExecOpts{Dir: srv.Dir})
+			outcomes[fmt.Sprintf("exit=%d\n%s", v.Exit, v.Out)]++
+			c.Eval(21)
+			c.Count("books_with_element_names_that_differ_at_a_path_separator", 1)
+			c.Nontrivial("separator-order", fmt.Sprint(bi))
+			wantOut := "exit=0\n" + strings.Join(want, "\n") + "\n"
+			for got, cnt := range outcomes {
+				if got != wantOut {
+					c.Violation("csv database-resolved|rows", fmt.Sprintf("recipe with the elements %q: %d of 21 runs give another export than the resolved book (rows in the byte order of the element names)", names, cnt),
+						caseDoc{Files: files, Args: args, Expected: wantOut, Observed: clip(got, 1500)})
+					break
+				}
+			}
+		}
+	}
 	// headings written with a zone offset: the date of a row is the calendar date of its own heading as written,
 	// also when the previous heading denotes the very same instant under another offset, is repeated, or is a
 	// neighbouring instant
